@@ -353,6 +353,28 @@ type Mutation { createTodo(input: NewTodo!): Todo! }
 		"gqlgen.yml": "schema:\n  - \"*.graphql\"\nexec:\n  filename: graph/generated.go\n  package: graph\n" +
 			"model:\n  filename: graph/model/models_gen.go\n  package: model\nautobind:\n  - \"verif/work/gen/c18/autob/graph/model\"\nskip_mod_tidy: true\nskip_validation: true\n",
 	}})
+	// several runtime directives on the same executable locations: the generated middleware switch
+	// has one case per directive
+	ps = append(ps, &project{Name: "execdirs", Kind: "executable-directives", Dirs: []string{"graph"}, Files: map[string]string{
+		"schema.graphql": `directive @alpha(x: Int) on QUERY | MUTATION | SUBSCRIPTION | FIELD
+directive @beta on QUERY | MUTATION | FIELD
+directive @gamma(s: String) on QUERY | SUBSCRIPTION | FIELD
+directive @delta on QUERY | MUTATION | SUBSCRIPTION | FIELD
+directive @epsilon on MUTATION | FIELD
+directive @zeta on QUERY | FIELD
+type Query { a: Int b(x: Int): String }
+type Mutation { m: Int }
+type Subscription { s: Int }
+`,
+		"gqlgen.yml": "schema:\n  - \"*.graphql\"\nexec:\n  filename: graph/generated.go\n  package: graph\n" +
+			"model:\n  filename: graph/model/models_gen.go\n  package: model\nskip_mod_tidy: true\nskip_validation: true\n",
+	}})
+	// single-file resolver layout with an unexported root resolver type
+	ps = append(ps, &project{Name: "rsflower", Kind: "resolver-single-file", Dirs: []string{"graph"}, SingleFileResolver: "graph/resolver.go", Files: map[string]string{
+		"schema.graphql": "type Query { a: Int b(x: Int): String }\ntype Mutation { m: Int }\n",
+		"gqlgen.yml": "schema:\n  - \"*.graphql\"\nexec:\n  filename: graph/generated.go\n  package: graph\n" +
+			"model:\n  filename: graph/model/models_gen.go\n  package: model\nresolver:\n  layout: single-file\n  filename: graph/resolver.go\n  package: graph\n  type: resolver\nskip_mod_tidy: true\nskip_validation: true\n",
+	}})
 	// follow-schema resolvers for types whose names the Go-name normaliser rewrites (ApiUser ->
 	// APIUser, UserId -> UserID, line_item -> LineItem): the accessor written by the first run must
 	// be recognised as already present by the second
